@@ -104,7 +104,7 @@ def redis_ops(kind):
                 ops.append(("set", c, k, vn))
             ops.append(("get", c, k)); ops.append(("cached", c, k)); ops.append(("delete", c, k)); ops.append(("contains", c, k)); ops.append(("ttl", c, k))
             ops.append(("nested" if kind == "redis-dict" else "append", c, k))
-        ops.append(("iter", c)); ops.append(("len", c)); ops.append(("inval", c))
+        ops.append(("iter", c)); ops.append(("len", c)); ops.append(("inval", c)); ops.append(("invalall", c))
     ops.append(("reopen",))
     return ops
 
@@ -177,6 +177,10 @@ def apply_redis(sut, ref, op, kind):
             if not sut.pending(op[1]):
                 return "skip"
             sut.server.deliver_invalidation(st.tracker_id)
+        elif name == "invalall":
+            if len(sut.pending(op[1])) < 2:
+                return "skip"
+            sut.server.deliver_invalidation_batch(st.tracker_id)
     except Exception as e:
         return ("raises-%s" % type(e).__name__, "%r raised %s: %s" % (op, type(e).__name__, e))
     return None
@@ -186,10 +190,17 @@ def bfs_redis(kind, tier, config="symmetric"):
     if config == "asymmetric":
         # closed configuration: client 0 reads / caches / writes, client 1 only writes
         KEYS, CAP, MAXQ = (["k1", "k2"], 1, 1) if tier == "quick" else (["k1", "k2", "k3"], 2, 2)
+    elif config == "batch":
+        # closed configuration for coalesced invalidation messages: client 0 reads (plain and cached), client 1 writes
+        KEYS, CAP, MAXQ = (["k1", "k2"], 2, 2) if tier == "quick" else (["k1", "k2", "k3"], 2, 3)
     else:
         KEYS, CAP, MAXQ = ["k1", "k2", "k3"], 2, 2
     sut = RedisSut(kind)
     ops = redis_ops(kind)
+    if config == "batch":
+        nonempty = [v for v in (VALS if kind == "redis-dict" else LVALS) if (VALS if kind == "redis-dict" else LVALS)[v]]
+        ops = [o for o in ops if (o[0] in ("get", "cached", "inval", "invalall") and o[1] == 0)
+               or (o[0] == "set" and o[1] == 1 and o[3] in nonempty) or (o[0] == "delete" and o[1] == 1)]
     if config == "asymmetric":
         ops = [o for o in ops if len(o) < 2 or o[1] == 0 or o[0] in ("set", "delete", "nested", "append")]
     max_states = (1500 if tier == "quick" else 60000) if config == "symmetric" else 400000
@@ -372,9 +383,9 @@ def _job(args):
 
 def run(tier, seed):
     cr = common.CheckResult(PROP)
-    jobs = [("json", tier), ("simple", tier)] + [(k, tier, c) for k in ("redis-dict", "redis-list") for c in ("asymmetric", "symmetric")]
+    jobs = [("json", tier), ("simple", tier)] + [(k, tier, c) for k in ("redis-dict", "redis-list") for c in ("asymmetric", "symmetric", "batch")]
     ctx = multiprocessing.get_context("fork")
-    with ctx.Pool(6) as pool:
+    with ctx.Pool(8) as pool:
         outs = pool.map(_job, jobs)
     nf = factories(cr)
     for o in outs:
@@ -386,7 +397,7 @@ def run(tier, seed):
         "distinct_states": {o["kind"]: o["distinct"] for o in outs}, "capped": [o["kind"] for o in outs if o["capped"]], "exhaustive": not any(o["capped"] for o in outs),
         "samples": [{"store": "redis-dict", "ops": [["set", 0, "k1", "V1"], ["cached", 1, "k1"], ["nested", 0, "k1"], ["inval", 1], ["cached", 1, "k1"]]}],
         "explanation": "per store kind a breadth-first search over operation sequences (set, nested update / append through the returned view, get, get_cached_view, delete, in, iterate, len, set_ttl, reopen, "
-                       "corrupt-file reopen, deliver one queued invalidation to a client) over 3 keys x 3 values, two clients for the Redis kinds with cache capacity 2, to a fixed point of the canonical state "
+                       "corrupt-file reopen, deliver one queued invalidation to a client, deliver all queued invalidations to a client as one multi-key message) over 3 keys x 3 values, two clients for the Redis kinds with cache capacity 2, to a fixed point of the canonical state "
                        "(backend contents + time-to-live + each client's cache + queued invalidations + tracked keys); every placement of every invalidation between operations is a transition; oracle: a dict",
     }
     cr.assumptions = ["simulated redis server + pottery containers (/verif/sim/redis, /verif/sim/pottery): hashes/lists with JSON-encoded members, empty containers do not exist, SCAN paging, "
